@@ -44,8 +44,13 @@ ASSUMPTIONS = [
     'else its rule, else KeyError) and calls each kernel with the values of its dependencies; validated by the '
     'exhaustive correspondence (bitwise equality of the target coordinate with the model derivation evaluated with '
     'the real kernel functions), not proved',
-    'the kernels themselves compute the documented formulas: proved in C01/C03/C05, here compared by the oracle at '
-    '1e-9 relative (energy_transfer 1e-8 of the larger term, away from the t = t0 pole)',
+    'value clause over the reals: `convert_value` (Props/C02.lean, via Lemmas/ConvertValue.lean) proves that the '
+    'derivation evaluates to the documented formula of the target when the supplied coordinates carry the ground truth of '
+    'one neutron/beamline, using the kernel theorems of C01 (TofPhys.*_phys), C03 (two_theta_eq_angle) and C05 '
+    '(direct_/indirect_conserves_energy); hypotheses: positive constants/scales/tof/energies, non-zero and non-parallel '
+    'beams, detector not at the source, and for energy_transfer the inelastic flight-time relation; the hkl value is the '
+    "kernel's own formula (R·UB)^-1 Q/2π (its meaning is C08.hkl_inverse). In floating point the oracle compares at "
+    '1e-9 relative (energy_transfer 1e-6 of max(|value|,1), away from the t = t0 pole)',
     'the recursive model `resolve` (about which convert_ok_iff etc. are proved) resolves multi-output rules '
     '(Qx,Qy,Qz / h,k,l) per output name; scipp (and the literal model `graphFor`) recompute all outputs of such a rule '
     'even when some are supplied (fullLiteralPrecedence_false). `convertLiteral_eq_convert` proves both models '
@@ -1048,7 +1053,10 @@ LEVEL_TEXT = (
     'flags and EVERY set of present coordinates convert returns a derivation iff the mode is unambiguous and the target '
     'derivable, else RuntimeError; derivations never contain a kernel of the wrong scattering mode; the literal '
     'stack/dict loop of scipp Graph.graph_for (terminating within its budget) yields the same derivation as the '
-    'recursive resolution; the graph tables are exactly the documented wiring; the factory models reproduce every '
+    'recursive resolution; the graph tables are exactly the documented wiring; every kernel of every graph maps ground '
+    'truth to ground truth and hence (convert_value) the derivation evaluates to the documented formula of the target '
+    '(λ = h t/(m_n L), E = m_n L²/(2t²), d = λ/(2 sin θ), Q = 4π sin θ/λ, Euclidean L1/L2/Ltotal/2θ, ΔE = Ei − Ef, '
+    'Q-vector, hkl, time at sample); the factory models reproduce every '
     'public graph factory. The model is tied to the code by an exhaustive correspondence over all configurations '
     '(bitwise equal target coordinates, equal subgraphs, equal graph keys).'
 )
